@@ -351,6 +351,105 @@ def handshake(out, mc, pending):
         ob.status = "pass"
 
 
+def main_loop(out, mc, pending):
+    """LspServer::run / wait_for_initialization: messages that arrive while the workspace is loading are handled or
+    queued, and the queue is always processed once loading is over"""
+    fns = mc.fns("emmylua_ls", r"lsp_server.rs[^>]*>::(run|wait_for_initialization)|message_processor.rs[^>]*>::(process_pending_messages|can_process_during_init)")
+    ob1 = out.add(Obligation("main_loop/queued_messages_are_processed", "M",
+                             "LspServer::run: on every path on which wait_for_initialization completed without error, process_pending_messages runs before the server closes, "
+                             "returns or reads further messages (requests queued during loading are not abandoned)",
+                             {"function": "LspServer::run (async body)", "loop": "2 messages"}, []))
+    ob2 = out.add(Obligation("main_loop/message_during_loading_handled_or_queued", "M",
+                             "wait_for_initialization: every message received while loading is handed to handle_message or pushed to pending_messages — exactly one of the two, that message — "
+                             "before the next receive or return",
+                             {"function": "LspServer::wait_for_initialization (async body)", "loop": "2 messages"}, []))
+    run = [f for f in fns if re.search(r"lsp_server.rs[^>]*>::run::\{closure#0\}$", f.name)]
+    wfi = [f for f in fns if re.search(r"lsp_server.rs[^>]*>::wait_for_initialization::\{closure#0\}$", f.name)]
+    # ---- run
+    fails = []
+    n = 0
+    if len(run) != 1:
+        fails.append("LspServer::run not found")
+    else:
+        ob1.functions.append(run[0].name)
+        ex = symex.Executor(fns, enums=ENUMS, max_visits=symex.visits(2))
+        st = symex.State()
+        for p in ex.run(run[0], coroutine_args(ex, st), st):
+            if p.kind == "cut":
+                continue
+            if p.kind != "return":
+                fails.append("path kind %s" % p.kind)
+                continue
+            names = [e.get("short", e["callee"]) for e in p.trace]
+            w = [i for i, x in enumerate(names) if x.endswith("LspServer::wait_for_initialization")]
+            if len(w) != 1:
+                fails.append("wait_for_initialization is called %d times" % len(w))
+                continue
+            # did it complete without error?  the `?` forks on the awaited result: an Err path returns right away with Err
+            ret_err = isinstance(p.ret, symex.Agg) and p.ret.fields and isinstance(p.ret.fields[0], symex.Agg) and p.ret.fields[0].variant == "Err"
+            rest = names[w[0] + 1:]
+            if ret_err and not [x for x in rest if not x.startswith("<") and "from" not in x.lower() and "drop" not in x.lower()]:
+                continue
+            n += 1
+            pp = [i for i, x in enumerate(rest) if x.endswith("process_pending_messages")]
+            other = [i for i, x in enumerate(rest) if re.search(r"ServerContext::close$|AsyncConnection::recv$|process_message$", x)]
+            if not pp:
+                fails.append("a path leaves wait_for_initialization and never processes the queued messages")
+            elif other and other[0] < pp[0]:
+                fails.append("the server closes or reads on before the queued messages are processed")
+    ob1.witness = n > 0
+    if n == 0:
+        fails.append("no path past wait_for_initialization")
+    if fails:
+        ob1.status = "pending"
+        ob1.detail = "; ".join(sorted(set(fails)))[:500]
+        pending.append((ob1, fails))
+    else:
+        ob1.status = "pass"
+    # ---- wait_for_initialization
+    fails = []
+    n = 0
+    if len(wfi) != 1:
+        fails.append("wait_for_initialization not found")
+    else:
+        ob2.functions.append(wfi[0].name)
+        ex = symex.Executor(fns, enums=ENUMS, max_visits=symex.visits(2))
+        st = symex.State()
+        for p in ex.run(wfi[0], coroutine_args(ex, st), st):
+            if p.kind not in ("return", "cut"):
+                fails.append("path kind %s" % p.kind)
+                continue
+            evs = p.trace
+            for i, e in enumerate(evs):
+                if e["callee"] != "<await>" or "recv" not in str(e["args"][0]):
+                    continue
+                res = symex.Opaque("std::result::Result<std::option::Option<lsp_server::Message>, tokio::time::error::Elapsed>", ("await", e["args"][0]))
+                d_res = ex.discriminant(p.state, res)
+                opt = symex.LazyPayload(ex, p.state, res, "Ok")[0]
+                d_opt = ex.discriminant(p.state, opt)
+                if not (mc.implied_eq(p, d_res.term, 0) and mc.implied_eq(p, d_opt.term, 1)):
+                    continue            # timeout or closed connection on this path
+                nxt = next((j for j in range(i + 1, len(evs)) if evs[j]["callee"] == "<await>" and "recv" in str(evs[j]["args"][0])), len(evs))
+                seg = evs[i + 1:nxt]
+                if p.kind == "cut" and nxt == len(evs) and not [g for g in seg if re.search(r"handle_message$|Vec::push$", g.get("short", g["callee"]))]:
+                    continue            # the bound cut the path right after the receive
+                n += 1
+                key = symex.kfmt(("await", e["args"][0]))
+                hm = [g for g in seg if g.get("short", g["callee"]).endswith("handle_message") and key in " ".join(g["akeys"])]
+                pu = [g for g in seg if re.search(r"Vec::push$", g.get("short", g["callee"])) and key in " ".join(g["akeys"])]
+                if len(hm) + len(pu) != 1:
+                    fails.append("a message received while loading is handled %d times and queued %d times" % (len(hm), len(pu)))
+    ob2.witness = n > 0
+    if n == 0:
+        fails.append("no received message was followed")
+    if fails:
+        ob2.status = "pending"
+        ob2.detail = "; ".join(sorted(set(fails)))[:500]
+        pending.append((ob2, fails))
+    else:
+        ob2.status = "pass"
+
+
 def preinit_window(out, mc, pending):
     """run_ls: between the initialize response and the `initialized` notification a request is answered, not fatal"""
     fns = mc.fns("emmylua_ls", r"^fn run_ls")
@@ -514,6 +613,7 @@ def replay(out, pending):
         extra["bad_initialize"] = {k: v for k, v in lspdrive.session_bad_initialize(exe).items() if k != "alive"}
         extra["after_shutdown"] = lspdrive.session_after_shutdown(exe)
         extra["before_initialized"] = lspdrive.session_before_initialized(exe)
+        extra["shutdown_while_loading"] = lspdrive.session_shutdown_while_loading(exe)
     for ob, fails in pending:
         if not exe:
             ob.status = "inconclusive"
@@ -565,6 +665,7 @@ def run(out):
         handshake(out, mc, pending)
         shutdown_window(out, mc, pending)
         preinit_window(out, mc, pending)
+        main_loop(out, mc, pending)
     except (symex.Unsupported, RuntimeError, KeyError, ValueError, IndexError, AttributeError) as e:
         import traceback
         out.fatal = "engine M could not encode the current source: %r\n%s" % (e, traceback.format_exc()[-1500:])
